@@ -2,7 +2,7 @@
    validate_graph, count_entries, hash_graph, find_dependencies, detect_cycles, _detect_impure, to_edges) calls its
    visitor at most 1 + |E| times; one that does not (`PerPath`, the pinned validate_graph / count_entries /
    _detect_impure) calls it once per path, which is exponential on stacked diamonds (finding F4a). *)
-From Connectome Require Import Values VM MiscGen.
+From Connectome Require Import Values VM GraphGen TravGen.
 Local Open Scope list_scope.
 
 Lemma lsum_cons x l : list_sum (x :: l) = x + list_sum l. Proof. reflexivity. Qed.
